@@ -1,6 +1,7 @@
-//! C09: not implemented yet.
-use serde_json::{json, Value};
+//! C09: media preservation.  Same case format and executor as C07 (see c07.rs); the outputs are
+//! dumped/inlined and the orchestrator applies independent per-format media extractors to them.
+use serde_json::Value;
 
-pub fn run(_case: &Value) -> Value {
-    json!({"r": "unimplemented"})
+pub fn run(case: &Value) -> Value {
+    crate::c07::exec(case)
 }
